@@ -291,7 +291,7 @@ pub static C16: SimpleProp = SimpleProp {
     level: "exploration",
     rule: "one evaluation = one call history (3-50 calls of write with sizes 0..2000 / write_all-style pieces / flush / get_output, then finish) over a valid, corrupted (bit flip, truncation, splice, extension), over-long or size-lying input, an invalid header byte, or a multi-window stream whose sink fails while the window is handed over, continuing after the first Err and after the declared size is reached; latch rules are checked over the recorded (call, result, sink length) history; distinct by scenario hash; every case non-trivial (>= 3 calls)",
     runs_quick: 100_000,
-    runs_thorough: 5_000_000,
+    runs_thorough: 30_000_000,
     both_profiles: false,
     assumptions: &[
         "completion is observed from outside: once the writes have consumed every byte of a valid size-bounded payload the declared size has been reached",
